@@ -47,6 +47,8 @@ NAMES = {
     "modules": {"S1": "math", "S2": "S2", "k1": "scipy", "k2": "k2", "d": "numpy", "f": "fd", "C": "comp"},
     # legal ids that are Python builtins the generated code itself calls for MathML max / min / abs / pow
     "builtins": {"S1": "S1", "S2": "S2", "k1": "k1", "k2": "min", "d": "max", "f": "fd", "C": "pow"},  # (a function definition called abs is not expressible in the L3 formula syntax)
+    # a reserved id (renamed to <id>_fn by the generator) next to an element that is literally called <id>_fn
+    "reserved-fn": {"S1": "S1", "S2": "S2", "k1": "k1", "k2": "scipy_fn", "d": "math_fn", "f": "fd", "C": "comp", "r1": "math", "r2": "scipy"},
     # legal ids that coincide with names the importer's code generator makes up (init_<id> for initial assignments)
     "internal-S1": {"S1": "S1", "S2": "S2", "k1": "k1", "k2": "k2", "d": "init_S1", "f": "fd", "C": "comp"},
     "internal-k2": {"S1": "S1", "S2": "S2", "k1": "k1", "k2": "k2", "d": "init_k2", "f": "init_kq1", "C": "comp"},
@@ -172,7 +174,7 @@ def write_document(c, path):
         ia.setMath(libsbml.parseL3Formula(f"2 * {nm['k1']}"))
     text, _fn = law_expr(c["law"], nm, c["ruled"])
     r1 = model.createReaction()
-    r1.setId("r1")
+    r1.setId(nm.get("r1", "r1"))
     r1.setReversible(False)
     sr = r1.createReactant()
     sr.setSpecies(nm["S1"])
@@ -195,7 +197,7 @@ def write_document(c, path):
     kl = r1.createKineticLaw()
     kl.setMath(libsbml.parseL3Formula(text))
     r2 = model.createReaction()
-    r2.setId("r2")
+    r2.setId(nm.get("r2", "r2"))
     r2.setReversible(False)
     sr = r2.createReactant()
     sr.setSpecies(nm["S2"])
@@ -272,6 +274,7 @@ def generate(tier):
         add(names=names, hosu=hosu, k2=k2, sia=sia, ruled=1, law=law, fdef=1, **({"iachain": chain} if chain else {}))
     for hosu, k2, ruled, law in it.product((0, 1), K2, (0, 1), ("ma", "minmax", "abs", "power", "fcall", "ma-comp")):
         add(names="builtins", hosu=hosu, k2=k2, ruled=ruled, law=law, fdef=int(law == "fcall"))
+        add(names="reserved-fn", hosu=hosu, k2=k2, ruled=ruled, law=law, fdef=int(law == "fcall"))
     # compartment whose size attribute (1) is overridden by an initial assignment (2)
     for compia, hosu, init, law, st, names in it.product(("const", "expr"), (0, 1), ("conc", "amount"), ("ma", "ma-comp", "piecewise"), ("one", "half", "rule"), ("plain", "keyword")):
         add(compia=compia, hosu=hosu, init=init, law=law, stoich=st, names=names)
